@@ -42,21 +42,34 @@ type tapElem struct {
 	} `xml:",any"`
 }
 
-// Tap parses everything rs writes (install before the session is used).
-func Tap(rs *common.RawSession) <-chan Elem {
+// Tap parses everything rs writes (install before the session is used).  Its goroutines end
+// when the session's input is closed (rs.In.Close makes Feed fail) or done is closed.
+func Tap(rs *common.RawSession, done <-chan struct{}) <-chan Elem {
 	pr, pw := io.Pipe()
-	raw := make(chan []byte, 1<<16)
-	out := make(chan Elem, 1<<16)
-	rs.Out.OnWrite = func(b []byte) { raw <- append([]byte(nil), b...) }
+	raw := make(chan []byte, 4096)
+	out := make(chan Elem, 4096)
+	rs.Out.OnWrite = func(b []byte) {
+		select {
+		case raw <- append([]byte(nil), b...):
+		case <-done:
+		}
+	}
 	go func() {
-		for b := range raw {
-			if _, err := pw.Write(b); err != nil {
+		defer pw.Close()
+		for {
+			select {
+			case b := <-raw:
+				if _, err := pw.Write(b); err != nil {
+					return
+				}
+			case <-done:
 				return
 			}
 		}
 	}()
 	go func() {
 		defer close(out)
+		defer pr.Close()
 		d := xml.NewDecoder(pr)
 		for {
 			tok, err := d.Token()
@@ -72,19 +85,28 @@ func Tap(rs *common.RawSession) <-chan Elem {
 				if len(e.Children) > 0 {
 					el.Child, el.ChildNS = e.Children[0].XMLName.Local, e.Children[0].XMLName.Space
 				}
-				out <- el
+				select {
+				case out <- el:
+				case <-done:
+					return
+				}
 			}
 		}
 	}()
 	return out
 }
 
-// Feeder writes peer bytes in order.
-func Feeder(rs *common.RawSession) chan<- string {
-	ch := make(chan string, 1<<16)
+// Feeder writes peer bytes in order until done is closed.
+func Feeder(rs *common.RawSession, done <-chan struct{}) chan<- string {
+	ch := make(chan string, 4096)
 	go func() {
-		for s := range ch {
-			if rs.Feed([]byte(s)) != nil {
+		for {
+			select {
+			case s := <-ch:
+				if rs.Feed([]byte(s)) != nil {
+					return
+				}
+			case <-done:
 				return
 			}
 		}
@@ -97,8 +119,10 @@ func runConcurrent(r *common.Run, workers, iters int) {
 	if err != nil {
 		return
 	}
-	tap := Tap(rs)
-	feed := Feeder(rs)
+	done := make(chan struct{})
+	defer close(done)
+	tap := Tap(rs, done)
+	feed := Feeder(rs, done)
 	h := &receipts.Handler{}
 	m := mux.New("jabber:client", receipts.Handle(h))
 	go rs.S.Serve(m)
